@@ -13,6 +13,7 @@ import Driver.OpsClean
 import Driver.OpsFlatten
 import Driver.OpsCopy
 import Driver.OpsNil
+import Driver.OpsRegistry
 open Lean Driver
 
 def dispatch (op : String) (j : Json) : R Json :=
@@ -30,6 +31,7 @@ def dispatch (op : String) (j : Json) : R Json :=
   | "copy" => opCopy j
   | "nilcell" => opNilCell j
   | "isNil" => opIsNil j
+  | "typeOf" => opTypeOf j
   | _ => .error s!"unknown op {op}"
 
 partial def loop (h : IO.FS.Stream) (out : IO.FS.Stream) : IO Unit := do
